@@ -18,6 +18,11 @@ RULE = (
     "220 chains (quick) of 1-4 skippable extension headers (0, 43, 44, 51, 60, 135, 139, 140; arbitrary length bytes, fragment "
     "header first / last, chains that go on behind the data) x EVERY failure position k in 0..=len+1 x EVERY truncation of the "
     "data, plus all 256 first next-header values on short data x every k; "
+    "io.skip.ext.sf / io.skip.all.sf (the same two functions over a reader whose j-th seek call fails with an injected error "
+    "and does not move): 220 further chains (quick) x seek-failure index j in {0, 1, 2, 3} x read-failure positions k around "
+    "every call boundary of the loop (header start, behind the first read, last byte, header end, +-1) and k >= len / k = 2^20 "
+    "(only the seek fails) x truncations of the data at those boundaries, plus all 256 first next-header values on short data "
+    "x every k x every j; "
     "build.failw / build.slicebuf (C10's configuration grammar = every builder path): ~520 small-payload configurations (quick) "
     "over start (ethernet2 | linux_sll | none) x VLAN (none | single_vlan | double_vlan | vlan(Single) | vlan(Double)) x net "
     "(ipv4() | ipv6() | ip(IpHeaders::Ipv4 with options [+AH]) | ip(IpHeaders::Ipv6 + extension header sets) | arp) x final "
@@ -28,7 +33,9 @@ RULE = (
 )
 EXPLANATION = (
     "theorems: failing_writer / parts_flatten / slice_writer / builder_slice / failing_reader / limited_reader / "
-    "skip_header_extension(_ok_iff) / skip_all_ok / skip_all_complete / skip_all_error / gbuilder_space_required / "
+    "skip_header_extension(_ok_iff) / skip_all_ok / skip_all_complete / skip_all_error / skip_ext_sf_unreached / "
+    "skip_ext_sf_reached / skip_ext_sf_ok_iff / skip_all_sf_free / skip_all_sf_seek_calls / skip_all_sf_unreached / "
+    "skip_all_sf_reached / skip_all_sf_ok / skip_all_sf_error (reader whose j-th seek fails) / gbuilder_space_required / "
     "gbuilder_slice_buffer / gbuilder_failing_writer / gbuilder_write_failing_ok_iff "
     "(EpModel/Props/C16.lean) over the part-sequence and read-program models of EpModel/Model/Io.lean, the Read + Seek skip model "
     "EpModel/Model/IoSkip.lean and the general builder model of C10 (EpModel/Model/Builder.lean + BuilderIo.lean); correspondence: "
@@ -40,7 +47,13 @@ EXPLANATION = (
     "after the failure, canary intact, space error = complete length, reader never Ok below the needed length and never "
     "consumes more than k, LimitedReader pulls <= max_len and keeps read_len <= max_len; skip: a python walk over the RFC "
     "header lengths says whether every byte of the skipped header(s) lies in front of the failure position / end of data - "
-    "Ok(next header, position behind the headers) iff it does, otherwise the injected error / UnexpectedEof; builder: C10's "
+    "Ok(next header, position behind the headers) iff it does, otherwise the injected error / UnexpectedEof; failing seek: a "
+    "python reference reader + the calls of the two functions in the order of the code (fragment: read 1, seek 6, read 1; "
+    "authentication: read 2, seek len*4+5, read 1; others: read 2, seek len*8+5, read 1; every `?` returns at once) gives "
+    "result, final position and number of seek calls - the implementation must report exactly that, err(seek) whenever the "
+    "failing seek is reached, no call after the first failure (post=0), and Ok only where the RFC walk finds complete headers, "
+    "one seek call per header and the failing index behind them; the call-order reference without seek failure is "
+    "cross-checked against the RFC walk on every line; builder: C10's "
     "python reference builder gives the complete encoding, its length and the builder's own error - written is a prefix of it, "
     "success only at full length, cap < length gives exactly Space(length) with only a prefix (the crate: nothing) written, "
     "cap >= length gives the complete encoding and nothing behind it"
@@ -841,6 +854,208 @@ def oracle_skip(c, out):
 
 
 # ----------------------------------------------------------------------------------------------
+# the same two functions over a reader whose j-th call of `seek` fails (io.skip.ext.sf / io.skip.all.sf)
+
+SF_JS = (0, 1, 2, 3)
+
+
+def skip_sf_lines(nh, data, k, j):
+    return ["io.skip.ext.sf\t%d\t%s\t%d\t%d" % (nh, hx(data), k, j),
+            "io.skip.all.sf\t%d\t%s\t%d\t%d" % (nh, hx(data), k, j)]
+
+
+def skip_marks(nh, d):
+    """offsets at which a call of the skip loop starts / ends on complete data (reference walk over the
+    RFC header lengths): header start, behind the first read (1 byte for a fragment header, else 2), last
+    byte of the header, header end"""
+    marks = []
+    pos, cur = 0, nh
+    while cur in SKIPPABLE and pos + 2 <= len(d):
+        ln = ext_header_len(cur, d[pos + 1])
+        marks += [pos, pos + (1 if cur == 44 else 2), pos + ln - 1]
+        cur = d[pos]
+        pos += ln
+    marks.append(pos)
+    return marks
+
+
+def gen_skip_sf_cases(rng, tier):
+    nchain = 220 if tier == "quick" else 3000
+    for i in range(nchain):
+        nh, d = gen_skip_chain(rng, i)
+        d = d + rbytes(rng, rng.choice([0, 0, 3, 9]))
+        n = len(d)
+        marks = skip_marks(nh, d)
+        # read-failure positions: around every call boundary, and k >= len (then only the seek can fail
+        # as long as the data is complete)
+        ks = set([0, 1, 2, n, n + 1, n + 7, BIG])
+        for m in marks:
+            for dd in (-1, 0, 1):
+                if 0 <= m + dd <= n + 1:
+                    ks.add(m + dd)
+        ks = sorted(ks)
+        if len(ks) > 22:
+            keep = set(ks[:8]) | set([n, n + 1, n + 7, BIG]) | set(rng.sample(ks, 10))
+            ks = sorted(keep)
+        lines, runs = [], []
+        for k in ks:
+            for j in SF_JS:
+                lines += skip_sf_lines(nh, d, k, j)
+                runs.append([hx(d), k, j])
+        # truncated data (end of file instead of the injected error), cut at the call boundaries
+        cuts = sorted(set(t for m in marks for t in (m - 1, m, m + 1) if 0 <= t < n))
+        if len(cuts) > 8:
+            cuts = sorted(rng.sample(cuts, 8))
+        for t in cuts:
+            for j in SF_JS:
+                lines += skip_sf_lines(nh, d[:t], t + 1, j)
+                runs.append([hx(d[:t]), t + 1, j])
+        yield Case(lines, {"kind": "skipsf", "op": "skipsf", "nh": nh, "full": hx(d), "runs": runs, "dlen": n})
+    # every first next_header value on short random data, every k, every j
+    for nh in range(256):
+        d = rbytes(rng, rng.choice([0, 1, 2, 7, 8, 9, 16, 24]))
+        if d and rng.random() < 0.7:
+            b = bytearray(d)
+            b[0] = rng.choice(NOT_SKIPPABLE + SKIPPABLE)
+            if len(b) > 1:
+                b[1] = rng.choice([0, 0, 1, 2, b[1]])
+            d = bytes(b)
+        lines, runs = [], []
+        for k in list(range(0, len(d) + 2)) + [BIG]:
+            for j in SF_JS:
+                lines += skip_sf_lines(nh, d, k, j)
+                runs.append([hx(d), k, j])
+        yield Case(lines, {"kind": "skipsf", "op": "skipsf", "nh": nh, "full": hx(d), "runs": runs, "dlen": len(d)})
+
+
+class _RefFail(Exception):
+    pass
+
+
+class _RefReader:
+    """python reference of the instrumented Read + Seek reader: positions >= min(k, len) cannot be read
+    (injected error if k <= len, else end of file; everything in front of that point is consumed first),
+    the seek call with index j (None: no call) fails and does not move, every other seek just moves"""
+
+    def __init__(self, data, k, j):
+        self.data, self.k, self.j = data, k, j
+        self.pos = 0
+        self.seeks = 0
+
+    def read_exact(self, n):
+        avail = min(self.k, len(self.data))
+        if self.pos + n <= avail:
+            b = self.data[self.pos:self.pos + n]
+            self.pos += n
+            return b
+        self.pos = max(self.pos, avail)
+        raise _RefFail("err(io)" if self.k <= len(self.data) else "err(eof)")
+
+    def seek_current(self, n):
+        index = self.seeks
+        self.seeks += 1
+        if index == self.j:
+            raise _RefFail("err(seek)")
+        self.pos += n
+
+
+def _ref_skip_ext_calls(r, nh):
+    """the calls of Ipv6Header::skip_header_extension in the order of the code (ipv6_header.rs):
+    IPV6_FRAG: read_exact(1), rest_length = 7; AUTH: read_exact(2), rest_length = buf[1] * 4 + 6;
+    hop-by-hop / routing / destination options / mobility / HIP / shim6: read_exact(2), rest_length =
+    buf[1] * 8 + 6; anything else: Ok(next_header) without a call.
+    Then seek(Current(rest_length - 1))?, read_exact(1)?, Ok(buf[0]); every `?` returns at once."""
+    if nh == 44:
+        buf = r.read_exact(1)
+        rest = 7
+    elif nh == 51:
+        buf = r.read_exact(2)
+        rest = buf[1] * 4 + 6
+    elif nh in (0, 43, 60, 135, 139, 140):
+        buf = r.read_exact(2)
+        rest = buf[1] * 8 + 6
+    else:
+        return nh
+    r.seek_current(rest - 1)
+    r.read_exact(1)
+    return buf[0]
+
+
+def ref_skip_sf(nh, data, k, j, all_headers):
+    """reference result of io.skip.ext.sf / io.skip.all.sf (j = None: no seek fails):
+    (result text, final position, seek calls made); the first failing call ends the run."""
+    r = _RefReader(data, k, j)
+    try:
+        if all_headers:
+            # skip_all_header_extensions: loop { if is_skippable(nh) { nh = skip_header_extension(..)? } else { return Ok(nh) } }
+            while nh in SKIPPABLE:
+                nh = _ref_skip_ext_calls(r, nh)
+        else:
+            nh = _ref_skip_ext_calls(r, nh)
+        return ("ok(%d)" % nh, r.pos, r.seeks)
+    except _RefFail as e:
+        return (str(e), r.pos, r.seeks)
+
+
+def ref_headers_skipped(nh, data, pos_end, all_headers):
+    """number of complete headers in front of pos_end (RFC walk)"""
+    pos, n = 0, 0
+    while nh in SKIPPABLE and pos < pos_end:
+        ln = 8 if nh == 44 else ext_header_len(nh, data[pos + 1])
+        nh = data[pos]
+        pos += ln
+        n += 1
+        if not all_headers:
+            break
+    return n
+
+
+_SKSF = re.compile(r"^(ok\((\d+)\)|err\(\w+\));pos=(\d+);seeks=(\d+);post=(\d+)$")
+
+
+def oracle_skip_sf(c, out):
+    nh = c.meta["nh"]
+    for i, (dh, k, j) in enumerate(c.meta["runs"]):
+        data = unhex(dh)
+        for t, all_headers in ((0, False), (1, True)):
+            line = c.lines[2 * i + t]
+            o = c.impl[2 * i + t] or ""
+            m = _SKSF.match(o)
+            if not m:
+                out.append(("skipsf-no-panic", {"line": line, "impl": o}))
+                return
+            res, pos, seeks, post = m.group(1), int(m.group(3)), int(m.group(4)), int(m.group(5))
+            want = ref_skip_sf(nh, data, k, j, all_headers)
+            # the two python references agree where both apply (no seek failure): call-order walk = RFC walk
+            free = ref_skip_sf(nh, data, k, None, all_headers)
+            rfc = ref_skip(nh, data, k, all_headers)
+            if (rfc[0] == "ok") != free[0].startswith("ok") or (rfc[0] == "ok" and (free[0], free[1]) != ("ok(%d)" % rfc[1], rfc[2])) \
+                    or (rfc[0] == "err" and free[0] != rfc[1]):
+                out.append(("skipsf-references-disagree", {"line": line, "calls": list(free), "rfc": list(rfc)}))
+                return
+            if post != 0:
+                out.append(("skipsf-call-after-error", {"line": line, "impl": o, "want": "%s;pos=%d;seeks=%d" % want}))
+                return
+            if want[0] == "err(seek)" and res != "err(seek)":
+                # the failing seek is reached (every call in front of it succeeds) but its error is not what comes back
+                out.append(("skipsf-seek-error-not-surfaced", {"line": line, "impl": o, "want": "%s;pos=%d;seeks=%d" % want}))
+                return
+            if res.startswith("ok"):
+                # Ok only if every read and every seek succeeded: the RFC walk finds complete headers up to the
+                # reported position, one seek per header, and the failing seek is not one of them
+                if rfc[0] != "ok" or res != "ok(%d)" % rfc[1] or pos != rfc[2]:
+                    out.append(("skipsf-ok-on-failed-call", {"line": line, "impl": o, "want": "%s;pos=%d;seeks=%d" % want}))
+                    return
+                hdrs = ref_headers_skipped(nh, data, pos, all_headers)
+                if seeks != hdrs or j < seeks:
+                    out.append(("skipsf-ok-on-failed-call", {"line": line, "impl": o, "headers": hdrs, "j": j}))
+                    return
+            if (res, pos, seeks) != want:
+                out.append(("skipsf-result", {"line": line, "impl": o, "want": "%s;pos=%d;seeks=%d" % want}))
+                return
+
+
+# ----------------------------------------------------------------------------------------------
 # PacketBuilder, every path (the configuration grammar and the python reference builder of C10)
 
 BFILL = 0xAA
@@ -1038,6 +1253,7 @@ def generate(rng, tier):
     yield from gen_limited_cases(rng, tier)
     yield from gen_build_cases(rng, tier)
     yield from gen_skip_cases(rng, tier)
+    yield from gen_skip_sf_cases(rng, tier)
     yield from gen_gbuild_cases(rng, tier)
 
 
@@ -1045,7 +1261,7 @@ def is_trivial(c):
     k = c.meta.get("kind")
     if k == "limited":
         return len(c.meta["ops"]) < 2
-    if k in ("read", "skip"):
+    if k in ("read", "skip", "skipsf"):
         return c.meta["dlen"] < 2
     return c.meta.get("len", 2) < 2
 
@@ -1071,6 +1287,8 @@ def oracle(c):
             oracle_build_slice(c, out)
         elif k == "skip":
             oracle_skip(c, out)
+        elif k == "skipsf":
+            oracle_skip_sf(c, out)
         elif k == "gbuild":
             oracle_gbuild(c, out)
     except (ValueError, IndexError, TypeError, AttributeError, KeyError) as e:
